@@ -1239,68 +1239,37 @@ Section WithParams.
   Proof. intros ops H c cl Hc. apply (inv_cli _ (run_inv ops H) c cl Hc). Qed.
 
   (** *** what the client established (specification side) vs. pgcat's client map *)
-  Lemma latin1_ascii : forall s, forallb (fun b => b <? 128) s = true -> latin1_utf8 s = s.
-  Proof.
-    induction s; intros H; auto. cbn [forallb] in H. apply andb_true_iff in H. destruct H as [H1 H2].
-    unfold latin1_utf8 in *. cbn [flat_map]. rewrite H1. cbn [app]. f_equal. auto.
-  Qed.
-
-  Definition pair_ok (kv : bytes * bytes) : bool :=
-    ascii_nonempty (fst kv) && ascii_nonempty (snd kv) && key_ok (fst kv).
-
-  Lemma strs_ok : forall raw, forallb pair_ok raw = true ->
-    filter (fun s => negb (is_nil s)) (map latin1_utf8 (flat_map (fun kv => [fst kv; snd kv]) raw)) =
-    flat_map (fun kv => [fst kv; snd kv]) raw.
-  Proof.
-    induction raw as [|[k v] raw IH]; intros H; auto.
-    cbn [forallb] in H. apply andb_true_iff in H. destruct H as [H1 H2].
-    unfold pair_ok in H1. cbn [fst snd] in H1. apply andb_true_iff in H1. destruct H1 as [H1 _].
-    apply andb_true_iff in H1. destruct H1 as [Hk Hv].
-    unfold ascii_nonempty in Hk, Hv. apply andb_true_iff in Hk. apply andb_true_iff in Hv.
-    destruct Hk as [Hk1 Hk2]. destruct Hv as [Hv1 Hv2].
-    cbn [flat_map app map fst snd filter]. rewrite !latin1_ascii by auto. rewrite Hk1, Hv1. rewrite IH by auto.
-    reflexivity.
-  Qed.
-
-  Lemma pair_up_flat : forall raw, pair_up (flat_map (fun kv => [fst kv; snd kv]) raw) = Some raw.
-  Proof. induction raw as [|[k v] raw IH]; auto. cbn [flat_map app fst snd pair_up]. rewrite IH. reflexivity. Qed.
-
-  Lemma startup_decode_ok : forall raw, startup_ok raw = true -> startup_decode raw = Some raw.
-  Proof.
-    intros raw H. unfold startup_ok in H. apply andb_true_iff in H. destruct H as [H1 H2].
-    unfold startup_decode. fold pair_ok in H1. rewrite strs_ok by auto. rewrite pair_up_flat. rewrite H2.
-    destruct raw as [|[k v] raw]; [discriminate|]. reflexivity.
-  Qed.
-
   Lemma canon_in : forall k K, canon_tracked k = Some K -> tracked K = true.
   Proof. intros k K H. unfold canon_tracked in H. apply find_some in H. apply tracked_in. tauto. Qed.
 
   Lemma canon_none : forall k, canon_tracked k = None -> tracked (recase k) = false.
   Proof.
-    intros k H. unfold recase.
-    destruct (beq k k_timezone) eqn:E1; [apply beq_eq in E1; subst; discriminate|].
-    destruct (beq k k_datestyle) eqn:E2; [apply beq_eq in E2; subst; discriminate|].
+    intros k H. unfold recase. rewrite H.
     destruct (tracked k) eqn:Et; auto. apply tracked_cases in Et.
     destruct Et as [Et|[Et|[Et|[Et|Et]]]]; subst; discriminate.
   Qed.
 
-  Lemma est_startup_agree : forall raw m e, forallb pair_ok raw = true ->
+  Lemma est_startup_agree : forall ps m e,
     (forall k, tracked k = true -> pget k m = pget k e) ->
     forall k, tracked k = true ->
-    pget k (set_from_list m raw false) =
-    pget k (fold_left (fun m kv => match canon_tracked (fst kv) with Some K => pset K (snd kv) m | None => m end) raw e).
+    pget k (set_from_list m ps false) =
+    pget k (fold_left (fun m kv => match canon_tracked (fst kv) with Some K => pset K (snd kv) m | None => m end) ps e).
   Proof.
-    induction raw as [|[k1 v1] raw IH]; intros m e Hr Hme k Hk; auto.
-    cbn [forallb] in Hr. apply andb_true_iff in Hr. destruct Hr as [H1 H2].
+    induction ps as [|[k1 v1] ps IH]; intros m e Hme k Hk; auto.
     unfold set_from_list in *. cbn [fold_left fst snd]. apply IH; auto.
-    intros k0 H0. unfold pair_ok in H1. cbn [fst] in H1. apply andb_true_iff in H1. destruct H1 as [_ Hko].
-    unfold key_ok in Hko. unfold set_param. rewrite orb_false_r.
+    intros k0 H0. unfold set_param. rewrite orb_false_r.
     destruct (canon_tracked k1) as [K|] eqn:Ec.
-    - apply beq_eq in Hko. rewrite Hko. rewrite (canon_in k1 K Ec).
+    - unfold recase. rewrite Ec. rewrite (canon_in k1 K Ec).
       destruct (beq k0 K) eqn:E.
       + apply beq_eq in E. subst. rewrite !pget_pset_eq. auto.
       + rewrite !pget_pset_neq by auto. auto.
     - rewrite (canon_none k1 Ec). auto.
+  Qed.
+
+  Lemma startup_decode_pairs : forall raw ps, startup_decode raw = Some ps -> ps = take_pairs raw.
+  Proof.
+    intros raw ps H. unfold startup_decode in H. destruct (take_pairs raw) as [|p l]; [discriminate|].
+    destruct (existsb (fun kv => beq (fst kv) k_user) (p :: l)); inversion H; auto.
   Qed.
 
   Definition EstOK (cl : cli) : Prop := forall k, tracked k = true -> pget k (c_map cl) = pget k (c_est cl).
@@ -1309,19 +1278,20 @@ Section WithParams.
     inv2_cli : forall c cl, w_cli w c = Some cl -> EstOK cl;
     inv2_log : forall c s co dk bv cv evv, In (EvStmt c s co dk bv cv evv) (w_log w) -> cv = evv }.
 
-  Lemma step_inv2 : forall w o, (match o with OConnect _ raw => startup_ok raw = true | _ => True end) ->
-    Inv2 w -> Inv2 (step valid bdef hb w o).
+  Lemma step_inv2 : forall w o, Inv2 w -> Inv2 (step valid bdef hb w o).
   Proof.
-    intros w o Hok [HC HL]. destruct o as [c raw|c s0 ss|c|c]; cbn [step].
+    intros w o [HC HL]. destruct o as [c raw|c s0 ss|c|c]; cbn [step].
     - destruct (w_cli w c) eqn:Ec; [constructor; auto|].
-      rewrite startup_decode_ok by auto.
-      constructor; cbn [w_cli w_log].
-      + intros c' cl Hc. destruct (Nat.eq_dec c' c) as [E|E].
-        * subst. rewrite upd_eq in Hc. inversion Hc; subst. intros k Hk. cbn [c_map c_est].
-          unfold est_startup. apply est_startup_agree; auto.
-          unfold startup_ok in Hok. apply andb_true_iff in Hok. tauto.
-        * rewrite upd_neq in Hc by auto. eauto.
-      + intros c0 s co dk bv cv evv Hin. destruct Hin as [Hin|Hin]; [discriminate|]. eauto.
+      destruct (startup_decode raw) as [ps|] eqn:Ed.
+      + apply startup_decode_pairs in Ed. subst ps.
+        constructor; cbn [w_cli w_log].
+        * intros c' cl Hc. destruct (Nat.eq_dec c' c) as [E|E].
+          -- subst. rewrite upd_eq in Hc. inversion Hc; subst. intros k Hk. cbn [c_map c_est].
+             unfold est_startup. apply est_startup_agree; auto.
+          -- rewrite upd_neq in Hc by auto. eauto.
+        * intros c0 s co dk bv cv evv Hin. destruct Hin as [Hin|Hin]; [discriminate|]. eauto.
+      + constructor; cbn [w_cli w_log]; auto.
+        intros c0 s co dk bv cv evv Hin. destruct Hin as [Hin|Hin]; [discriminate|]. eauto.
     - destruct (w_cli w c) as [cl|] eqn:Ec; [|constructor; auto].
       destruct (match c_held cl with
                 | Some s => Some (s, false)
@@ -1385,18 +1355,16 @@ Section WithParams.
       intros c1 s1 co dk bv cv evv Hin. destruct Hin as [Hin|Hin]; [discriminate|]. eauto.
   Qed.
 
-  Lemma run_from_inv2 : forall ops w, startups_ok ops = true -> Inv2 w -> Inv2 (run_from valid bdef hb w ops).
+  Lemma run_from_inv2 : forall ops w, Inv2 w -> Inv2 (run_from valid bdef hb w ops).
   Proof.
-    induction ops as [|o ops IH]; intros w Hv HI; auto.
-    unfold startups_ok in Hv. cbn [forallb] in Hv. apply andb_true_iff in Hv. destruct Hv as [Ho Hv].
+    induction ops as [|o ops IH]; intros w HI; auto.
     unfold run_from. cbn [fold_left]. apply IH; auto. apply step_inv2; auto.
-    destruct o; auto.
   Qed.
 
-  Lemma established : forall ops, startups_ok ops = true ->
+  Lemma established : forall ops,
     forall c s co dk bv cv evv, In (EvStmt c s co dk bv cv evv) (w_log (run valid bdef hb ops)) -> cv = evv.
   Proof.
-    intros ops H. apply (inv2_log (run valid bdef hb ops)). apply run_from_inv2; auto.
+    intros ops. apply (inv2_log (run valid bdef hb ops)). apply run_from_inv2; auto.
     constructor; cbn [init w_cli w_log]; intros; [discriminate|contradiction].
   Qed.
 
